@@ -441,6 +441,50 @@ def recAll (rec : Nat → St → Res (Impl × St)) : List (String × Nat) → St
   | (n, c) :: r, st =>
     (rec c st).bind fun x => (recAll rec r x.2).bind fun xs => .ok ((n, x.1) :: xs.1, xs.2)
 
+/-- an index lambda that is not stored: `InlinedResult(loopy_expr, …, depends_on)` -/
+def ilInline (e : SExpr) (uniq : List (String × String)) (ns : List (String × Impl)) (boundDeps : List String)
+    (i : Nat) (st : St) : Res (Impl × St) :=
+  let e' := renameRed uniq e
+  match gen ns [] e' with
+  | none => .unmodelled "expression refers to an unknown name"
+  | some le =>
+    let r := Impl.inlined le (boundDeps ++ genDeps ns [] e')
+    .ok (r, st.remember i r)
+
+/-- the instructions of a stored index lambda: the bound temporaries (statements of their own for a
+    0-d result, lets of the store otherwise) and the store -/
+def emitStored (hs : List Hoisted) (boundDeps : List String) (id name : String) (inames : List String)
+    (shape : Shape) (rhs : SExpr) (deps : List String) (st : St) : St :=
+  if shape.length == 0 then
+    let st := hs.foldl (fun st h =>
+      st.emit { id := h.id, lhs := h.temp, lhsIdx := [], loops := [], lets := [], rhs := h.e,
+                deps := normDeps boundDeps }) st
+    st.emit (storeStmt id name inames shape [] rhs deps)
+  else
+    let lets := sortLets (hs.map fun h => (h.temp, substIdx (inameVars inames) h.e))
+    let letIds := hs.map (·.id)
+    st.emit (storeStmt id name inames shape lets rhs (deps.filter fun d => !letIds.contains d))
+
+/-- an index lambda that is stored (`ImplStored`, or a reduction bound that is not quasi-affine) -/
+def ilStore (shape : Shape) (e : SExpr) (tag : NameTag) (rvars : List RVar) (uniq : List (String × String))
+    (ns : List (String × Impl)) (boundDeps : List String) (i : Nat) (st : St) : Res (Impl × St) :=
+  (tempName st tag).bind fun nm =>
+  (nm.2.vars (dimNames nm.1 shape.length)).bind fun ins =>
+  let name := nm.1
+  let inames := ins.1
+  (hoistBounds ns uniq e (isEmptyShape shape) rvars ins.2).bind fun hb =>
+  let hs := hb.1
+  let ns' := ns ++ hs.map fun h => (h.temp, Impl.stored h.temp [h.id])
+  let e' := renameRed uniq (replaceBounds hb.2.1 e)
+  match gen ns' [] e' with
+  | none => .unmodelled "expression refers to an unknown name"
+  | some le =>
+    let deps := boundDeps ++ genDeps ns' [] e'
+    (hb.2.2.insnId (name ++ "_store")).bind fun idr =>
+    let rhs := readBackBounds hs uniq (substIdx (inameVars inames) le)
+    let r := Impl.stored name [idr.1]
+    .ok (r, (emitStored hs boundDeps idr.1 name inames shape rhs deps idr.2).remember i r)
+
 /-- `CodeGenMapper.rec` on node `i` (fuel-indexed) -/
 def mapNode (g : LGraph) : Nat → Nat → St → Res (Impl × St)
   | 0, _, _ => .unmodelled "out of fuel"
@@ -459,8 +503,6 @@ def mapNode (g : LGraph) : Nat → Nat → St → Res (Impl × St)
         (recAll (mapNode g fuel) binds un.2).bind fun nsr =>
         let uniq := un.1
         let ns := nsr.1
-        let st := nsr.2
-        let ndim := shape.length
         let boundDeps := rvars.flatMap fun rv =>
           match boundsOf rv.name e with
           | some (lo, hi) => genDeps ns [] lo ++ genDeps ns [] hi
@@ -470,54 +512,22 @@ def mapNode (g : LGraph) : Nat → Nat → St → Res (Impl × St)
         match impl with
         | .unknown s => .refuse ("NotImplementedError(Implementation strategy: " ++ s ++ ")")
         | _ =>
-        if store then
-          (tempName st tag).bind fun nm =>
-          (nm.2.vars (dimNames nm.1 ndim)).bind fun ins =>
-          let name := nm.1
-          let inames := ins.1
-          let empty := isEmptyShape shape
-          (hoistBounds ns uniq e empty rvars ins.2).bind fun hb =>
-          let hs := hb.1
-          let ns' := ns ++ hs.map fun h => (h.temp, Impl.stored h.temp [h.id])
-          let e' := renameRed uniq (replaceBounds hb.2.1 e)
-          match gen ns' [] e' with
-          | none => .unmodelled "expression refers to an unknown name"
-          | some le =>
-            let deps := boundDeps ++ genDeps ns' [] e'
-            (hb.2.2.insnId (name ++ "_store")).bind fun idr =>
-            let rhs := readBackBounds hs uniq (substIdx (inameVars inames) le)
-            let st := idr.2
-            let r := Impl.stored name [idr.1]
-            if ndim == 0 then
-              -- no inames: the bound temporaries are statements of their own
-              let st := hs.foldl (fun st h =>
-                st.emit { id := h.id, lhs := h.temp, lhsIdx := [], loops := [], lets := [], rhs := h.e,
-                          deps := normDeps boundDeps }) st
-              let st := st.emit (storeStmt idr.1 name inames shape [] rhs deps)
-              .ok (r, st.remember i r)
-            else
-              let lets := sortLets (hs.map fun h => (h.temp, substIdx (inameVars inames) h.e))
-              let letIds := hs.map (·.id)
-              let st := st.emit (storeStmt idr.1 name inames shape lets rhs
-                (deps.filter fun d => !letIds.contains d))
-              .ok (r, st.remember i r)
-        else
-          let e' := renameRed uniq e
-          match gen ns [] e' with
-          | none => .unmodelled "expression refers to an unknown name"
-          | some le =>
-            let r := Impl.inlined le (boundDeps ++ genDeps ns [] e')
-            .ok (r, st.remember i r)
+          if store then ilStore shape e tag rvars uniq ns boundDeps i nsr.2
+          else ilInline e uniq ns boundDeps i nsr.2
+
+/-- the declared shape of a node -/
+def shapeOf (g : LGraph) (i : Nat) : Shape :=
+  match g.get i with
+  | .input _ s => s
+  | .indexLambda s _ _ _ _ _ _ => s
+  | _ => []
 
 /-- the loop of `generate_loopy` over the outputs in compute order -/
 def storeOutputs (g : LGraph) (fuel : Nat) : List (String × Nat) → St → Res St
   | [], st => .ok st
   | (name, i) :: rest, st =>
     (mapNode g fuel i st).bind fun r =>
-    let shape := match g.get i with
-      | .input _ s => s
-      | .indexLambda s .. => s
-      | _ => []
+    let shape := shapeOf g i
     (r.2.vars (dimNames name shape.length)).bind fun ins =>
     (ins.2.insnId (name ++ "_store")).bind fun idr =>
     let rhs := r.1.toExpr (inameVars ins.1)
